@@ -47,6 +47,10 @@ def strategy(draw, tier="quick"):
         default=draw(st.booleans()),
         in_method=draw(st.integers(0, 2)) == 0,
     )
+    # call chain transaction -> wrapper methods -> method holding the condition; each call may sit under an If(input)
+    # (1) or carry enable_call=input (2)
+    spec["chain"] = [draw(st.integers(0, 2)) for _ in range(draw(st.integers(1, 3)))] if spec["in_method"] else []
+    spec["single_caller"] = draw(st.booleans())
     spec["calls"] = [sorted(draw(st.sets(st.integers(0, nm - 1), max_size=nm))) for _ in range(nb + 1)]
     used = {k for cl in spec["calls"] for k in cl}
     free = [k for k in range(nm) if k not in used]
@@ -77,6 +81,11 @@ class D(Elaboratable):
         n = spec.get("nested")
         self.nconds = [Signal(name=f"nc{i}") for i in range(n["nb"])] if n else []
         self.nw = [Signal(name=f"nw{i}") for i in range(n["nb"])] if n else []
+        self.guards = [Signal(name=f"g{i}") for i, g in enumerate(spec.get("chain", [])) if g]
+        # a branch is observed through a private always-ready probe method it calls (probe.run == the branch
+        # transaction runs): a comb witness inside the branch would be masked by the enclosing body's run signal
+        self.probe = [Method(name=f"probe{i}") for i in range(nb + 1)]
+        self.nprobe = [Method(name=f"nprobe{i}") for i in range(n["nb"])] if n else []
 
     def elaborate(self, platform):
         m = TModule()
@@ -87,12 +96,17 @@ class D(Elaboratable):
             def _():
                 pass
 
+        for pm in self.probe + self.nprobe:
+            with pm.body(m):
+                pass
+
         def nested_block():
             n = s["nested"]
             with condition(m, nonblocking=n["nonblocking"], priority=n["priority"]) as branch:
                 for i in range(n["nb"]):
                     with branch(self.nconds[i]):
                         m.d.comb += self.nw[i].eq(1)
+                        self.nprobe[i](m)
                         for c in n["calls"][i]:
                             self.ms[c](m)
 
@@ -101,6 +115,7 @@ class D(Elaboratable):
                 for i in range(s["nb"]):
                     with branch(self.conds[i]):
                         m.d.comb += self.w[i].eq(1)
+                        self.probe[i](m)
                         for c in s["calls"][i]:
                             self.ms[c](m)
                         if i == 0 and s.get("nested"):
@@ -108,19 +123,40 @@ class D(Elaboratable):
                 if s["default"]:
                     with branch():
                         m.d.comb += self.w[s["nb"]].eq(1)
+                        self.probe[s["nb"]](m)
                         for c in s["calls"][s["nb"]]:
                             self.ms[c](m)
 
         if s["in_method"]:
             self.outer = Method(name="outer")
+            kw = {"single_caller": True} if s.get("single_caller", True) else {}
 
-            @def_method(m, self.outer, ready=self.tr, single_caller=True)
+            @def_method(m, self.outer, ready=self.tr, **kw)
             def _():
                 cond_block()
 
+            chain = s.get("chain") or [0]
+            wrappers = [Method(name=f"wrapper{i}") for i in range(len(chain) - 1)]
+            targets = wrappers + [self.outer]  # targets[k] is called at level k
+            gsig = iter(self.guards)
+
+            def call(level):
+                g = chain[level]
+                if g == 0:
+                    targets[level](m)
+                elif g == 1:
+                    with m.If(next(gsig)):
+                        targets[level](m)
+                else:
+                    targets[level](m, enable_call=next(gsig))
+
+            # guards are consumed in level order, so define the transaction first
             self.t = Transaction(name="t")
             with self.t.body(m):
-                self.outer(m)
+                call(0)
+            for i, w in enumerate(wrappers):
+                with w.body(m):
+                    call(i + 1)
             self.parent_run = self.outer.run
         else:
             self.t = Transaction(name="t")
@@ -141,6 +177,10 @@ def run_case(spec) -> Result:
     ])
     if spec.get("nested"):
         res.labels.append("nested_condition")
+    if len(spec.get("chain", [])) >= 2:
+        res.labels.append("call_chain>=2")
+    if any(spec.get("chain", [])):
+        res.labels.append("guarded_call")
     shared = any(set(a) & set(b) for a, b in itertools.combinations(spec["calls"][: spec["nb"] + (1 if spec["default"] else 0)], 2))
     if shared:
         res.labels.append("shared_callee")
@@ -148,7 +188,7 @@ def run_case(spec) -> Result:
     dm = DependencyManager()
     with DependencyContext(dm):
         sim = Simulator(TransactronContextElaboratable(d, dependency_manager=dm))
-    ins = [d.tr] + d.conds + d.mr + d.nconds
+    ins = [d.tr] + d.conds + d.mr + d.nconds + d.guards
     nb, nm = spec["nb"], spec["nm"]
     n = spec.get("nested")
     out = [None]
@@ -156,15 +196,23 @@ def run_case(spec) -> Result:
 
     async def tb(ctx):
         cat_in = Cat(*ins)
-        obs = Cat(d.parent_run, *d.w, *d.nw)
+        obs = Cat(d.parent_run, *[pm.run for pm in d.probe], *[pm.run for pm in d.nprobe], *d.w, *d.nw)
         for v in range(1 << len(ins)):
             ctx.set(cat_in, v)
             bits = [(v >> i) & 1 for i in range(len(ins))]
-            tr, c, mr, nc = bits[0], bits[1 : 1 + nb], bits[1 + nb : 1 + nb + nm], bits[1 + nb + nm :]
+            tr, c, mr = bits[0], bits[1 : 1 + nb], bits[1 + nb : 1 + nb + nm]
+            nc = bits[1 + nb + nm : 1 + nb + nm + len(d.nconds)]
             word = ctx.get(obs)
             prun = word & 1
             w = [(word >> (1 + i)) & 1 for i in range(nb + 1)]
             nw = [(word >> (2 + nb + i)) & 1 for i in range(len(d.nw))]
+            off = 2 + nb + len(d.nw)
+            cw = [(word >> (off + i)) & 1 for i in range(nb + 1 + len(d.nw))]  # comb witnesses inside the branches
+            n_used = nb + (1 if spec["default"] else 0)
+            for i in list(range(n_used)) + [nb + 1 + j for j in range(len(d.nw))]:
+                if cw[i] != (w + nw)[i]:
+                    out[0] = f"branch {i}: probe method run={(w + nw)[i]} but the comb statement in the branch body is {cw[i]}; val={bits}"
+                    return
             st_["vals"] += 1
             callee_ok = [all(mr[k] for k in spec["calls"][i]) for i in range(nb + 1)]
             # branch 0 with a blocking nested condition additionally needs an admissible nested branch
